@@ -103,6 +103,10 @@ func isEllipsis(name string) bool {
 // getVariableNames returns variable names sorted by their positions.
 // The input argument's key is a variable name and its value is the variable's position.
 func getVariableNames(variablePosition map[string]int) []string {
+	if len(variablePosition) == 0 {
+		return []string{}
+	}
+
 	result := make([]string, 0, len(variablePosition))
 	for name := range variablePosition {
 		result = append(result, name)
